@@ -173,6 +173,36 @@ def rlit_caseless(s):
     return ('cat', parts) if parts else EPS
 
 
+def rmap_case(x, upper=True):
+    """Image of a regular expression under str.upper() / str.lower(), for the ASCII letters (other characters are
+    left alone: the writers apply it to number and keyword text only)."""
+    k = x[0]
+    if k == 'set':
+        out = []
+        for lo, hi in x[1]:
+            if lo >= SYM_BASE:
+                out.append((lo, hi))
+                continue
+            src_lo, src_hi = (97, 122) if upper else (65, 90)
+            delta = -32 if upper else 32
+            # part below, inside, above the letter range that changes
+            if lo < src_lo:
+                out.append((lo, min(hi, src_lo - 1)))
+            if hi > src_hi:
+                out.append((max(lo, src_hi + 1), hi))
+            a, b = max(lo, src_lo), min(hi, src_hi)
+            if a <= b:
+                out.append((a + delta, b + delta))
+        return ('set', iv_norm(out))
+    if k == 'cat':
+        return ('cat', [rmap_case(y, upper) for y in x[1]])
+    if k == 'alt':
+        return ('alt', [rmap_case(y, upper) for y in x[1]])
+    if k == 'star':
+        return ('star', rmap_case(x[1], upper))
+    return x
+
+
 def rsym(sym):
     return ('set', ((sym, sym),))
 
